@@ -27,6 +27,9 @@ import (
 //	Op "M": sonic Marshal of Value(Wrap(TypeOf(T), W), Seed) with config Cfg
 //	Op "U": sonic Unmarshal of encoding/json.Marshal(that value) into a fresh destination of that type
 //	Op "P": sonic.PretouchMany(types Ts each wrapped by W) with compile options Inline (0 = default, else the depth) / Rec (0 = default, else depth+1)
+//	Op "X": N calls that FAIL inside nested containers (kind K, from G goroutines) - they hand pooled stacks / state machines back
+//	Op "D": decode a valid document nested N levels deep (shape K)
+//	Op "V": ValidateString Marshal/Unmarshal of really invalid UTF-8, Valid (kind K, input Seed)
 //	Op "R": compile N generated types numbered From.. (Marshal+Unmarshal of each when Batch == 0, else PretouchMany in
 //	        batches of Batch) - used to push the caches through their rehash thresholds
 type Step struct {
@@ -44,6 +47,8 @@ type Step struct {
 	Tiny   bool   `json:"tiny,omitempty"` // R: one-field struct types (cheap to compile) instead of GenType
 	Mut    uint64 `json:"mut,omitempty"`  // U: damage the document (type mismatches and / or syntax errors), see c09t.Damage
 	Doc    string `json:"doc,omitempty"`  // U: use exactly this document
+	K      int    `json:"k,omitempty"`    // X: kind of failing call (c09t.FloodKindName); D: shape; V: kind
+	G      int    `json:"g,omitempty"`    // X: goroutines (0/1: sequential)
 }
 
 type Scenario struct {
@@ -138,6 +143,13 @@ func doStep(s Step) string {
 			err = sonic.PretouchMany(ts, opts...)
 		}
 		return errClass(err)
+	case "X":
+		c09t.Flood(s.K, s.N, s.G, s.Seed)
+		return "ok"
+	case "D":
+		return c09t.DepthProbe(s.N, s.K)
+	case "V":
+		return c09t.Utf8Probe(s.K, s.Seed)
 	case "R":
 		gen := c09t.GenType
 		if s.Tiny {
@@ -343,6 +355,12 @@ func readable(s Step) string {
 			ns = append(ns, fmt.Sprintf(wr[s.W], name(t)))
 		}
 		return fmt.Sprintf("PretouchMany([%s], inline=%d, rec=%d)", strings.Join(ns, ", "), s.Inline, s.Rec-1)
+	case "X":
+		return fmt.Sprintf("%d x %d failing calls: %s", max1(s.G), s.N, c09t.FloodKindName[s.K%c09t.NFloodKinds])
+	case "D":
+		return fmt.Sprintf("decode a valid document nested %d deep (shape %d)", s.N, s.K)
+	case "V":
+		return fmt.Sprintf("utf8/valid probe kind %d input %d", s.K, s.Seed)
 	case "R":
 		return fmt.Sprintf("compile %d generated types from Gen%d (batch %d, tiny %v)", s.N, s.From, s.Batch, s.Tiny)
 	}
@@ -440,6 +458,43 @@ func genScenario(r *rng.R, id string, hazards bool) Scenario {
 	return sc
 }
 
+func max1(g int) int {
+	if g < 1 {
+		return 1
+	}
+	return g
+}
+
+// pool scenarios: preludes of thousands of failing nested calls (sequential and from several goroutines); probes = valid
+// decodes at depth 1..100, ValidateString calls on invalid UTF-8, Valid, and a few ordinary probes
+func genPool(r *rng.R, id string) Scenario {
+	sc := Scenario{ID: id}
+	for _, d := range []int{1, 2, 5, 17, 50, 100, 1 + r.Intn(100)} {
+		sc.Probes = append(sc.Probes, Step{Op: "D", N: d, K: r.Intn(6)})
+	}
+	sc.Probes = append(sc.Probes, Step{Op: "D", N: 3, K: 2}, Step{Op: "D", N: 90, K: 0})
+	for k := 0; k < 6; k++ {
+		sc.Probes = append(sc.Probes, Step{Op: "V", K: k, Seed: r.U64() % 7})
+	}
+	pool := safeTypes()
+	for i := 0; i < 3; i++ {
+		sc.Probes = append(sc.Probes, genProbe(r, pool))
+	}
+	sc.Preludes = append(sc.Preludes, nil)
+	for h := 0; h < 4; h++ {
+		var pre []Step
+		for i := 1 + r.Intn(3); i > 0; i-- {
+			x := Step{Op: "X", K: r.Intn(c09t.NFloodKinds), N: 2000 + r.Intn(3000), Seed: r.U64() % 1000}
+			if r.Chance(1, 3) {
+				x.G = 2 + r.Intn(7)
+			}
+			pre = append(pre, x)
+		}
+		sc.Preludes = append(sc.Preludes, pre)
+	}
+	return sc
+}
+
 func genHeavy(r *rng.R, id string, k int) Scenario {
 	sc := genScenario(r, id, false)
 	n := 2100 + r.Intn(300)
@@ -508,6 +563,9 @@ func histMain() {
 		r := rng.New(*seed ^ 0xc09)
 		for i := 0; i < *n; i++ {
 			scs = append(scs, genScenario(r.Fork(uint64(i)), fmt.Sprintf("gen-%d-%d", *seed, i), i%8 == 7))
+		}
+		for i := 0; i < *poolN; i++ {
+			scs = append(scs, genPool(r.Fork(uint64(700000+i)), fmt.Sprintf("pool-%d-%d", *seed, i)))
 		}
 		for i := 0; i < *heavy; i++ {
 			scs = append(scs, genHeavy(r.Fork(uint64(500000+i)), fmt.Sprintf("heavy-%d-%d", *seed, i), i+int(*seed%3)))
